@@ -287,8 +287,8 @@ func c12units(tier string) []mc.Unit {
 					c12check(r, sh.s, false)
 					cnt++
 					var c0 string
-					if p := catch(func() { c0 = seqhash.RotateSequence(sh.s) }); p != "" {
-						continue
+					if p := catch(func() { c0 = seqhash.RotateSequence(sh.s) }); p != "" || len(c0) != n {
+						continue // reported by c12check above
 					}
 					for _, k := range offs {
 						for _, kk := range []int{k, n - k} {
